@@ -58,6 +58,9 @@ pub struct Case {
     /// database content after every operation (index-aligned with `ops`), if recording
     pub record_snaps: bool,
     pub snaps: Vec<Snap>,
+    /// correct signatures handed out so far (signer, message, signature): material for replays
+    pub good_sigs: Vec<(Signer, Vec<u8>, String)>,
+    pub replayed_sigs: u64,
 }
 
 const SLOTS: &[u32] = &[1, 2, 3, 5, 21, 1000, 0, u32::MAX];
@@ -114,6 +117,8 @@ impl Case {
             probe: true,
             record_snaps: false,
             snaps: Vec::new(),
+            good_sigs: Vec::new(),
+            replayed_sigs: 0,
         }
     }
 
@@ -145,11 +150,24 @@ impl Case {
 
     fn pick_sig(&mut self, signer: Signer, msg: &[u8]) -> (String, bool) {
         let bad = if self.bias == "auth" { 45 } else { 12 };
+        // replay: a signature this very signer produced for an earlier, *different* request (one of the last few,
+        // so that it usually falls between the same two blocks)
+        if self.rng.chance(if self.bias == "auth" { 12 } else { 3 }, 100) {
+            let n = self.good_sigs.len();
+            let cands: Vec<usize> = (n.saturating_sub(6)..n).filter(|i| self.good_sigs[*i].0 == signer && self.good_sigs[*i].1 != msg).collect();
+            if !cands.is_empty() {
+                let k = *self.rng.pick(&cands);
+                self.replayed_sigs += 1;
+                return (self.good_sigs[k].2.clone(), false);
+            }
+        }
         if self.rng.chance(bad, 100) {
             let k = *self.rng.pick(&[SigKind::OtherMessage, SigKind::Truncated, SigKind::CharFlip, SigKind::NotZbase, SigKind::Empty, SigKind::OtherMessage, SigKind::CharFlip]);
             (self.world.sign(&mut self.rng, signer, msg, k), false)
         } else {
-            (self.world.sign(&mut self.rng, signer, msg, SigKind::Good), true)
+            let sig = self.world.sign(&mut self.rng, signer, msg, SigKind::Good);
+            self.good_sigs.push((signer, msg.to_vec(), sig.clone()));
+            (sig, true)
         }
     }
 
